@@ -187,6 +187,16 @@ class Unit:
                     e = b + 1 if toks[b].text == "," else b
                     rw.replace(a, e, "", "R2-drop-field")
                     skip.append((a, e))
+        if kind == "struct" and toks[it.hdr_end].text == "{":
+            # R6-visibility: private fields become pub (Verus treats a struct with private fields
+            # as opaque in pub contracts); visibility has no run-time meaning
+            for a, b in split_top(src, it.hdr_end + 1, it.end - 1):
+                if any(x <= a < y for x, y in skip):
+                    continue
+                if toks[a].text == "#":
+                    continue
+                if toks[a].text != "pub":
+                    rw.insert(a, "pub ", "R6-visibility")
         apply_type_subst(rw, src, it.start, it.end, self.cfg, skip=skip)
         rules.apply_extra(rw, src, it.start, it.end, self.cfg, skip)
         out = [Chunk(prefix, ("gen", "attr"))] if prefix else []
@@ -335,8 +345,8 @@ class Unit:
             if needs_block:
                 rw.insert_after(c["body_hi"] - 1, " }", "closure-contract")
         # type substitution, floats
+        rewrite_floats_and_casts(rw, src, body_open, body_close, self.cfg, skip)
         apply_type_subst(rw, src, it.start, it.end, self.cfg, skip=skip)
-        rewrite_floats_and_casts(rw, src, body_open, body_close, self.cfg)
         rules.apply_extra(rw, src, it.start, it.end, self.cfg, skip)
         rules.apply_body_rules(rw, src, f, body_open, body_close, loops, self.cfg)
         # contracts before the body
